@@ -88,7 +88,7 @@ def build_world(cfg):
     perms = {int(k): tuple(v) for k, v in cfg["perms"].items()}
     table = table_from_perms(cfg["T"], max_t, perms, sign)
     mra = "epochs" if cfg.get("use_mra") else None
-    spec = dict(W=cfg["W"], T=cfg["T"], R=max_t, table=table, brackets=nb if nb > 1 else 0,
+    spec = dict(W=cfg["W"], T=cfg["T"], R=max_t, table=table, brackets=(nb if nb > 1 else 0) if not cfg.get("free_brackets") else 0,
                 max_resource_attr=mra, scratch=cfg.get("scratch", False), fail_budget=cfg.get("F", 0))
     if cfg["type"] == "cost_promotion":
         spec["cost"] = cost_table(cfg["T"], max_t, cfg.get("cost_variant", 0))
